@@ -305,7 +305,18 @@ class C11(OptEngineBase):
             buf2 = np.zeros(3, dtype=np.float64)  # the caller's reused increment buffers
             buf3 = np.zeros(6, dtype=np.float64)
 
+            last_operand = [None, None]
+
             def operand(dvals, dkind, buf):
+                out = _operand(dvals, dkind, buf)
+                last_operand[0] = out
+                last_operand[1] = np.array(out, dtype=np.float64, copy=True).tobytes()
+                return out
+
+            def operand_untouched():
+                return last_operand[0] is None or np.array(last_operand[0], dtype=np.float64).tobytes() == last_operand[1]
+
+            def _operand(dvals, dkind, buf):
                 if dkind == "buffer":
                     buf[:] = dvals
                     return buf
@@ -433,6 +444,9 @@ class C11(OptEngineBase):
                             raise
                         if dkind == "buffer":
                             res.probe("increment_buffer_reused")
+                        if not operand_untouched():
+                            V(i, "increment-mutated", "p [+] d changed the caller's increment array")
+                            break
                         if keep.tobytes() != np.array(pool2[a]).tobytes():
                             V(i, "iadd-mutated-operand", "p + d / p += d changed the operand in place")
                             break
@@ -579,6 +593,9 @@ class C11(OptEngineBase):
                             raise
                         if dkind == "buffer":
                             res.probe("increment_buffer_reused")
+                        if not operand_untouched():
+                            V(i, "increment-mutated", "p [+] d changed the caller's increment array")
+                            break
                         if keep.tobytes() != np.array(pool3[a]).tobytes():
                             V(i, "iadd-mutated-operand", "p + d / p += d changed the operand in place")
                             break
